@@ -67,133 +67,8 @@ def _name_site(F, fn_path, callee_suffix, argi):
     return None
 
 
-def helper_symbol_rules(rep, cc):
-    """R08.k: registration name == import name (also an obligation of C12: an unresolved import panics inside cranelift-jit)"""
-    rk = rep.rule("R08.k", "Cranelift: the symbol name under which helper k is registered == the import name declared for key k; the func ref is filed under k", floor=3)
-    reg_site = _name_site(cc.F, "cranelift::CraneliftCompiler::new", "JITBuilder::symbol", 1)
-    dec_site = _name_site(cc.F, "cranelift::CraneliftCompiler::build_function_prelude", "::declare_function", 1)
-    norm = lambda t: re.sub(r"\{[A-Za-z_0-9]*(:[^}]*)?\}", lambda m: "{" + (m.group(1) if m.group(1) and m.group(1) != ":" else "") + "}", t)
-    rep.ob(rk, "template", reg_site is not None and dec_site is not None and norm(reg_site["template"]) == norm(dec_site["template"]),
-           "format template of the helper symbol name at registration and at import declaration",
-           expected="identical templates", found=[reg_site and reg_site["template"], dec_site and dec_site["template"]])
-    rep.ob(rk, "argument", reg_site is not None and dec_site is not None and len(reg_site["args"]) == 1 and reg_site["args"] == dec_site["args"]
-           and reg_site["args"][0][1] in ("&u32", "u32"),
-           "argument formatted into the name", expected="the helper key (&u32) at both sites", found=[reg_site and reg_site["args"], dec_site and dec_site["args"]])
-    ins = None
-    fnp = cc.F.fns.get("cranelift::CraneliftCompiler::build_function_prelude")
-    if fnp and dec_site:
-        for n in walk(fnp["thir"]["body"]):
-            if n.get("k") == "call" and (callee_path(n) or "").endswith("::insert") and "helper_func_refs" in repr(n["args"][0])[:2000]:
-                ins = [x.get("id") for x in walk(n["args"][1]) if x.get("k") in ("var", "upvar")]
-    rep.ob(rk, "filed-under", bool(ins) and dec_site is not None and ins == dec_site["arg_ids"],
-           "key under which the declared func ref is stored", expected="the key formatted into the import name", found=ins)
-
-
-def run(rep, tier):
-    cx = Ctx(rep, "std")
-    im = imodel.InterpModel(cx)
-    jm = jitmodel.JitModel(cx)
-    if not (im.ok and jm.ok):
-        return
-    # ---------------- interpreter
-    ri = rep.rule("R08.i", "interpreter: helpers[imm as u32](r1..r5) -> r0, once; unknown id -> Err; r6-r10 untouched", floor=1)
-    # every interpreter path a helper call (src == 0) can take: the ones not excluded by the call kind
-    from props.c05 import incompatible
-    src0 = [T.cmp("eq", 8, ("v", "src", 8), T.K(8, 0))]
-    paths = [p for p in im.summary(CALL) if not incompatible(list(p["conds"]), src0)]
-    called = [p for p in paths if p["calls"]]
-    missing = [p for p in paths if not p["calls"]]
-    ok = len(called) == 1 and len(missing) == 1
-    if ok:
-        # the helper runs whenever it is registered: no condition other than the call kind and the lookup
-        extra = [c for c in called[0]["conds"] if c != T.cmp("eq", 64, T.zext(64, ("v", "src", 8)), T.K(64, 0)) and "is_Some" not in repr(c)[:40]]
-        extra_m = [c for c in missing[0]["conds"] if c != T.cmp("eq", 64, T.zext(64, ("v", "src", 8)), T.K(64, 0)) and "is_Some" not in repr(c)[:60]]
-        ok = not extra and not extra_m
-    found = {}
-    if ok:
-        p = called[0]
-        c = p["calls"][0]
-        args = list(c[3]) if len(c) > 3 else []
-        lookups = [e for e in im.per_opcode(CALL)[0]["effects"]] if False else []
-        found = {"args": [T.show(a) for a in args], "writes": [T.show(k) for k in p["regs"]], "exit_missing": missing[0]["exit"]}
-        ok = args == [reg(k) for k in range(1, 6)] and list(p["regs"].keys()) == [T.K(64, 0)] and p["exit"] is None and \
-            missing[0]["exit"] == ("err",) and not missing[0]["regs"] and not missing[0]["stores"]
-        # the key: HashMap::get(HELPERS, imm)
-        keyok = False
-        for q in im.per_opcode(CALL):
-            for e in q["effects"]:
-                if e[0] == "call" and isinstance(e[1], str) and e[1].endswith("HashMap<K, V, S, A>::get") and "HELPERS" in repr(e[2][0]):
-                    keyok = keyok or e[2][1] == IMM
-        found["key_is_imm_u32"] = keyok
-        ok = ok and keyok
-    rep.ob(ri, "call", ok, "interpreter helper-call arm (src == 0)", expected="one indirect call f(r1,r2,r3,r4,r5), r0 := result, Err when the id is not registered",
-           found=found or "%d/%d paths" % (len(called), len(missing)))
-
-    # ---------------- JIT
-    rj = rep.rule("R08.j", "JIT: SysV argument registers hold r1..r5, result in rax = r0, r6-r10 and the packet base preserved, unknown id -> compile-time Err", floor=3)
-    tps = jm.templates(CALL, 3, 0)
-    okt = [t for t in tps if not t["err"]]
-    errt = [t for t in tps if t["err"] == "Err"]
-    good, found = False, {}
-    pushes = None
-    if len(okt) >= 1 and len(errt) == 1:
-      good = True
-      for tp in okt:
-        ins = X.decode(tp["items"])
-        ms = X.run(ins, jm.initial_machine())
-        if len(ms) != 1:
-            good = False
-            continue
-        if True:
-            m = ms[0]
-            init = jm.initial_machine()
-            hc = [e for e in m.events if e[0] == "helper_call"]
-            args_ok = len(hc) == 1 and list(hc[0][2]) == [reg(k) for k in range(1, 6)]
-            res_ok = m.regs[jm.regmap[0]][0] == "call" and m.regs[jm.regmap[0]][1] == "helper"
-            saved_ok = all(m.regs[jm.regmap[k]] == init.regs[jm.regmap[k]] for k in (6, 7, 8, 9, 10)) and m.regs[X.R10] == init.regs[X.R10]
-            bal = m.depth == 0 and m.regs[X.RSP] == init.regs[X.RSP]
-            tgt_ok = len(hc) == 1 and "HELPERS" in repr(hc[0][1]) or (len(hc) == 1 and "payload" in repr(hc[0][1]))
-            found = {"args_ok": args_ok, "result_in_rax": res_ok, "r6_r10_and_packet_base_preserved": saved_ok, "balanced": bal,
-                     "pushes_before_call": hc[0][3] if hc else None}
-            good = good and args_ok and res_ok and saved_ok and bal
-            pushes = hc[0][3] if hc else None
-    rep.ob(rj, "call-template", good, "x86 template of a helper call", expected="mov rcx<-r9; call rax with rdi,rsi,rdx,rcx,r8 = r1..r5; rax = r0",
-           found=found or [(t["err"], len(t["items"])) for t in tps])
-    keys = [T.show(e[2][1]) for t in tps for e in t.get("lookups", [])]
-    rep.ob(rj, "key", bool(keys) and all(e[2][1] == IMM for t in tps for e in t.get("lookups", [])) and all(t.get("lookups") for t in tps),
-           "key of the compile-time helper lookup", expected=T.show(IMM), found=sorted(set(keys)))
-    rep.ob(rj, "unknown-id", len(errt) == 1 and not errt[0]["items"], "JIT compilation of a call to an unregistered id",
-           expected="Err, nothing emitted", found=[(t["err"], len(t["items"])) for t in tps])
-
-    rf = rep.rule("R08.f", "x86 stack is 16-byte aligned at every helper call site, at every local-call depth", floor=3)
-    frames = [f for flags in ((False, False), (True, False), (True, True)) for f in jitmodel.frame_templates(jm, *flags) if f["ok"]]
-    deltas = set()
-    for f in frames:
-        ins = X.decode(f["prologue"])
-        for m in X.run(ins, jm.initial_machine()):
-            deltas.add(jitmodel.rsp_offset(m.regs[X.RSP]))
-    body = None
-    if len(deltas) == 1 and None not in deltas:
-        body = (8 + deltas.pop()) % 16       # SysV: rsp = 8 (mod 16) at function entry
-    rep.ob(rf, "prologue", body is not None, "stack pointer displacement of the prologue (same for the three wrapper configurations)",
-           expected="a constant", found=body)
-    # local call: delta between the call site and the callee's first instruction
-    lc = [t for t in jm.templates(CALL, 0, 1) if not t["err"]]
-    ldelta = None
-    if len(lc) == 1:
-        ins = X.decode(lc[0]["items"])
-        ms = X.run(ins, jm.initial_machine())
-        ev = [e for m in ms for e in m.events if e[0] == "local_call"]
-        if len(ev) == 1:
-            ldelta = jitmodel.rsp_offset(ev[0][4]) - 8       # + return address
-    rep.ob(rf, "local-call-delta", ldelta is not None and ldelta % 16 == 0, "stack displacement from a local call site to the callee body",
-           expected="0 (mod 16)", found=ldelta)
-    if body is not None and good:
-        at_call = (body - pushes) % 16
-        rep.ob(rf, "helper-call-site", at_call == 0, "rsp (mod 16) at the `call rax` of a helper call, entry rsp = 8 (mod 16)",
-               expected=0, found=at_call)
-
-    # ---------------- registration
+def register_rules(rep, cx):
+    """R08.r: register_helper(k, f) files f under k (replacing an earlier registration)"""
     F = cx.F
     rr = rep.rule("R08.r", "register_helper(k, f) files f under k, unchanged, on every VM kind", floor=4)
     import props.c10 as c10
@@ -220,31 +95,166 @@ def run(rep, tier):
             ok = ok and c10.result_kind(outs[0][0]) in ("Ok", "?")
         rep.ob(rr, path, ok, path, expected="helpers.insert(key, function), or delegation with both arguments", found=found)
 
-    # ---------------- Cranelift
-    cc = Ctx(rep, "cranelift")
-    cm = clmodel.ClModel(cc)
-    rc = rep.rule("R08.c", "Cranelift: call(helper_<imm as u32>, r1..r5) -> r0; unknown id -> compile-time Err; local calls refused", floor=2)
-    if cm.ok:
-        ps = cm.paths(CALL, 3, 0)
-        errs = [p for p in ps if p["err"] == "Err"]
-        oks = [p for p in ps if not p["err"]]
-        good = len(errs) >= 1 and len(oks) == 1
-        found = {"paths": [(p["err"], len(p["effects"])) for p in ps]}
-        if good:
-            r = cm.interpret(oks[0])
-            good = len(r["calls"]) == 1 and list(r["calls"][0][1]) == [reg(k) for k in range(1, 6)] and list(r["regs"].keys()) == [T.K(64, 0)]
-            look = [e for e in oks[0]["effects"] if e[1].endswith("HashMap<K, V, S, A>::get")]
-            keyok = any(cm.canon(e[2][1]) == IMM for e in look)
-            found.update({"args_r1_r5": good, "key_is_imm_u32": keyok})
-            good = good and keyok
-        rep.ob(rc, "call", good, "Cranelift helper call translation", expected="one call with (r1..r5), result defines r0, key imm as u32", found=found)
-        ps1 = cm.paths(CALL, 0, 1)
-        rep.ob(rc, "local-call", bool(ps1) and all(p["err"] == "Err" for p in ps1), "Cranelift translation of a local call", expected="Err", found=[p["err"] for p in ps1])
-        helper_symbol_rules(rep, cc)
-    # compiled code bakes helper addresses in: a call reaches the function registered under k only if
-    # compiling always rebuilds from the current helper table (the rule is C10's R10.h)
-    import props.c10 as c10
-    c10._compile_rules(rep, cx)
-    c10._compile_rules(rep, Ctx(rep, "cranelift"), tag="[cranelift]")
+
+
+def helper_symbol_rules(rep, cc):
+    """R08.k: registration name == import name (also an obligation of C12: an unresolved import panics inside cranelift-jit)"""
+    rk = rep.rule("R08.k", "Cranelift: the symbol name under which helper k is registered == the import name declared for key k; the func ref is filed under k", floor=3)
+    reg_site = _name_site(cc.F, "cranelift::CraneliftCompiler::new", "JITBuilder::symbol", 1)
+    dec_site = _name_site(cc.F, "cranelift::CraneliftCompiler::build_function_prelude", "::declare_function", 1)
+    norm = lambda t: re.sub(r"\{[A-Za-z_0-9]*(:[^}]*)?\}", lambda m: "{" + (m.group(1) if m.group(1) and m.group(1) != ":" else "") + "}", t)
+    rep.ob(rk, "template", reg_site is not None and dec_site is not None and norm(reg_site["template"]) == norm(dec_site["template"]),
+           "format template of the helper symbol name at registration and at import declaration",
+           expected="identical templates", found=[reg_site and reg_site["template"], dec_site and dec_site["template"]])
+    rep.ob(rk, "argument", reg_site is not None and dec_site is not None and len(reg_site["args"]) == 1 and reg_site["args"] == dec_site["args"]
+           and reg_site["args"][0][1] in ("&u32", "u32"),
+           "argument formatted into the name", expected="the helper key (&u32) at both sites", found=[reg_site and reg_site["args"], dec_site and dec_site["args"]])
+    ins = None
+    fnp = cc.F.fns.get("cranelift::CraneliftCompiler::build_function_prelude")
+    if fnp and dec_site:
+        for n in walk(fnp["thir"]["body"]):
+            if n.get("k") == "call" and (callee_path(n) or "").endswith("::insert") and "helper_func_refs" in repr(n["args"][0])[:2000]:
+                ins = [x.get("id") for x in walk(n["args"][1]) if x.get("k") in ("var", "upvar")]
+    rep.ob(rk, "filed-under", bool(ins) and dec_site is not None and ins == dec_site["arg_ids"],
+           "key under which the declared func ref is stored", expected="the key formatted into the import name", found=ins)
+
+
+def run(rep, tier, parts=("interp", "jit", "cranelift", "api")):
+    cx = Ctx(rep, "std")
+    im = imodel.InterpModel(cx)
+    jm = jitmodel.JitModel(cx)
+    if not (im.ok and jm.ok):
+        return
+    if "interp" in parts:
+        # ---------------- interpreter
+        ri = rep.rule("R08.i", "interpreter: helpers[imm as u32](r1..r5) -> r0, once; unknown id -> Err; r6-r10 untouched", floor=1)
+        # every interpreter path a helper call (src == 0) can take: the ones not excluded by the call kind
+        from props.c05 import incompatible
+        src0 = [T.cmp("eq", 8, ("v", "src", 8), T.K(8, 0))]
+        paths = [p for p in im.summary(CALL) if not incompatible(list(p["conds"]), src0)]
+        called = [p for p in paths if p["calls"]]
+        missing = [p for p in paths if not p["calls"]]
+        ok = len(called) == 1 and len(missing) == 1
+        if ok:
+            # the helper runs whenever it is registered: no condition other than the call kind and the lookup
+            extra = [c for c in called[0]["conds"] if c != T.cmp("eq", 64, T.zext(64, ("v", "src", 8)), T.K(64, 0)) and "is_Some" not in repr(c)[:40]]
+            extra_m = [c for c in missing[0]["conds"] if c != T.cmp("eq", 64, T.zext(64, ("v", "src", 8)), T.K(64, 0)) and "is_Some" not in repr(c)[:60]]
+            ok = not extra and not extra_m
+        found = {}
+        if ok:
+            p = called[0]
+            c = p["calls"][0]
+            args = list(c[3]) if len(c) > 3 else []
+            lookups = [e for e in im.per_opcode(CALL)[0]["effects"]] if False else []
+            found = {"args": [T.show(a) for a in args], "writes": [T.show(k) for k in p["regs"]], "exit_missing": missing[0]["exit"]}
+            ok = args == [reg(k) for k in range(1, 6)] and list(p["regs"].keys()) == [T.K(64, 0)] and p["exit"] is None and \
+                missing[0]["exit"] == ("err",) and not missing[0]["regs"] and not missing[0]["stores"]
+            # the key: HashMap::get(HELPERS, imm)
+            keyok = False
+            for q in im.per_opcode(CALL):
+                for e in q["effects"]:
+                    if e[0] == "call" and isinstance(e[1], str) and e[1].endswith("HashMap<K, V, S, A>::get") and "HELPERS" in repr(e[2][0]):
+                        keyok = keyok or e[2][1] == IMM
+            found["key_is_imm_u32"] = keyok
+            ok = ok and keyok
+        rep.ob(ri, "call", ok, "interpreter helper-call arm (src == 0)", expected="one indirect call f(r1,r2,r3,r4,r5), r0 := result, Err when the id is not registered",
+               found=found or "%d/%d paths" % (len(called), len(missing)))
+
+    if "jit" in parts:
+        # ---------------- JIT
+        rj = rep.rule("R08.j", "JIT: SysV argument registers hold r1..r5, result in rax = r0, r6-r10 and the packet base preserved, unknown id -> compile-time Err", floor=3)
+        tps = jm.templates(CALL, 3, 0)
+        okt = [t for t in tps if not t["err"]]
+        errt = [t for t in tps if t["err"] == "Err"]
+        good, found = False, {}
+        pushes = None
+        if len(okt) >= 1 and len(errt) == 1:
+          good = True
+          for tp in okt:
+            ins = X.decode_lenient(tp["items"])
+            ms = X.run_lenient(ins, jm.initial_machine())
+            if len(ms) != 1:
+                good = False
+                continue
+            if True:
+                m = ms[0]
+                init = jm.initial_machine()
+                hc = [e for e in m.events if e[0] == "helper_call"]
+                args_ok = len(hc) == 1 and list(hc[0][2]) == [reg(k) for k in range(1, 6)]
+                res_ok = m.regs[jm.regmap[0]][0] == "call" and m.regs[jm.regmap[0]][1] == "helper"
+                saved_ok = all(m.regs[jm.regmap[k]] == init.regs[jm.regmap[k]] for k in (6, 7, 8, 9, 10)) and m.regs[X.R10] == init.regs[X.R10]
+                bal = m.depth == 0 and m.regs[X.RSP] == init.regs[X.RSP]
+                tgt_ok = len(hc) == 1 and "HELPERS" in repr(hc[0][1]) or (len(hc) == 1 and "payload" in repr(hc[0][1]))
+                found = {"args_ok": args_ok, "result_in_rax": res_ok, "r6_r10_and_packet_base_preserved": saved_ok, "balanced": bal,
+                         "pushes_before_call": hc[0][3] if hc else None}
+                good = good and args_ok and res_ok and saved_ok and bal
+                pushes = hc[0][3] if hc else None
+        rep.ob(rj, "call-template", good, "x86 template of a helper call", expected="mov rcx<-r9; call rax with rdi,rsi,rdx,rcx,r8 = r1..r5; rax = r0",
+               found=found or [(t["err"], len(t["items"])) for t in tps])
+        keys = [T.show(e[2][1]) for t in tps for e in t.get("lookups", [])]
+        rep.ob(rj, "key", bool(keys) and all(e[2][1] == IMM for t in tps for e in t.get("lookups", [])) and all(t.get("lookups") for t in tps),
+               "key of the compile-time helper lookup", expected=T.show(IMM), found=sorted(set(keys)))
+        rep.ob(rj, "unknown-id", len(errt) == 1 and not errt[0]["items"], "JIT compilation of a call to an unregistered id",
+               expected="Err, nothing emitted", found=[(t["err"], len(t["items"])) for t in tps])
+
+        rf = rep.rule("R08.f", "x86 stack is 16-byte aligned at every helper call site, at every local-call depth", floor=3)
+        frames = [f for flags in ((False, False), (True, False), (True, True)) for f in jitmodel.frame_templates(jm, *flags) if f["ok"]]
+        deltas = set()
+        for f in frames:
+            ins = X.decode_lenient(f["prologue"])
+            for m in X.run_lenient(ins, jm.initial_machine()):
+                deltas.add(jitmodel.rsp_offset(m.regs[X.RSP]))
+        body = None
+        if len(deltas) == 1 and None not in deltas:
+            body = (8 + deltas.pop()) % 16       # SysV: rsp = 8 (mod 16) at function entry
+        rep.ob(rf, "prologue", body is not None, "stack pointer displacement of the prologue (same for the three wrapper configurations)",
+               expected="a constant", found=body)
+        # local call: delta between the call site and the callee's first instruction
+        lc = [t for t in jm.templates(CALL, 0, 1) if not t["err"]]
+        ldelta = None
+        if len(lc) == 1:
+            ins = X.decode_lenient(lc[0]["items"])
+            ms = X.run_lenient(ins, jm.initial_machine())
+            ev = [e for m in ms for e in m.events if e[0] == "local_call"]
+            if len(ev) == 1:
+                ldelta = jitmodel.rsp_offset(ev[0][4]) - 8       # + return address
+        rep.ob(rf, "local-call-delta", ldelta is not None and ldelta % 16 == 0, "stack displacement from a local call site to the callee body",
+               expected="0 (mod 16)", found=ldelta)
+        if body is not None and good:
+            at_call = (body - pushes) % 16
+            rep.ob(rf, "helper-call-site", at_call == 0, "rsp (mod 16) at the `call rax` of a helper call, entry rsp = 8 (mod 16)",
+                   expected=0, found=at_call)
+
+    if "api" in parts:
+        register_rules(rep, cx)
+
+    if "cranelift" in parts:
+        # ---------------- Cranelift
+        cc = Ctx(rep, "cranelift")
+        cm = clmodel.ClModel(cc)
+        rc = rep.rule("R08.c", "Cranelift: call(helper_<imm as u32>, r1..r5) -> r0; unknown id -> compile-time Err; local calls refused", floor=2)
+        if cm.ok:
+            ps = cm.paths(CALL, 3, 0)
+            errs = [p for p in ps if p["err"] == "Err"]
+            oks = [p for p in ps if not p["err"]]
+            good = len(errs) >= 1 and len(oks) == 1
+            found = {"paths": [(p["err"], len(p["effects"])) for p in ps]}
+            if good:
+                r = cm.interpret(oks[0])
+                good = len(r["calls"]) == 1 and list(r["calls"][0][1]) == [reg(k) for k in range(1, 6)] and list(r["regs"].keys()) == [T.K(64, 0)]
+                look = [e for e in oks[0]["effects"] if e[1].endswith("HashMap<K, V, S, A>::get")]
+                keyok = any(cm.canon(e[2][1]) == IMM for e in look)
+                found.update({"args_r1_r5": good, "key_is_imm_u32": keyok})
+                good = good and keyok
+            rep.ob(rc, "call", good, "Cranelift helper call translation", expected="one call with (r1..r5), result defines r0, key imm as u32", found=found)
+            ps1 = cm.paths(CALL, 0, 1)
+            rep.ob(rc, "local-call", bool(ps1) and all(p["err"] == "Err" for p in ps1), "Cranelift translation of a local call", expected="Err", found=[p["err"] for p in ps1])
+            helper_symbol_rules(rep, cc)
+        # compiled code bakes helper addresses in: a call reaches the function registered under k only if
+        # compiling always rebuilds from the current helper table (the rule is C10's R10.h)
+    if "api" in parts:
+        import props.c10 as c10
+        c10._compile_rules(rep, cx)
+        c10._compile_rules(rep, Ctx(rep, "cranelift"), tag="[cranelift]")
     rep.trust("SysV AMD64 ABI (argument registers, callee-saved set, 16-byte alignment at call)", "x86model.py / clmodel.py", "Cranelift's own ABI lowering")
     rep.assume("helpers are `fn(u64,u64,u64,u64,u64) -> u64` compiled for the C ABI of the host")
